@@ -195,6 +195,27 @@ def pynetdicom_threads(rep):
     return [t for t in rep["threads"] if not (t["name"].startswith("raw-") )]
 
 
+def time_bound(sc):
+    """virtual seconds within which any scenario of the lifecycle families must be over (every timeout twice + scripted delays)"""
+    to = sc["timeouts"]
+    return 2 * (to["acse"] + to["dimse"] + to["network"]) + to["connection"] + 14.0
+
+
+def livelock(out, bound, factor=10.0):
+    """A run that exhausted its step budget is inconclusive - unless the virtual clock is far beyond every configured timeout
+    (`factor` x the time bound the property allows) while pynetdicom threads are still alive: nothing bounded by a timeout can
+    take that long, so some thread is polling without a deadline (pynetdicom waits by polling in kill(), release(), stop_dul() ...).
+    -> key naming the polling functions, or None."""
+    rep = out["report"]
+    if out["how"] != "budget" or rep["now"] <= factor * bound:
+        return None
+    alive = [t for t in pynetdicom_threads(rep) if t["state"] != "done" and not t["exc"]]
+    if not alive:
+        return None
+    spots = sorted({f"{t['kind']}@{t.get('where') or t['label']}" for t in alive if t["label"] == "sleep"}) or sorted({f"{t['kind']}@{t['label']}" for t in alive})
+    return "livelock:" + "+".join(spots)
+
+
 def died(rep):
     """threads of pynetdicom (incl. user scripts calling its API) that ended with an exception"""
     return [t for t in pynetdicom_threads(rep) if t["exc"]]
